@@ -208,7 +208,8 @@ def run_pipe(case):
     with World(Chooser()) as w:
         w.patch(pipe, 'subprocess', sp)
         if cls_name == 'PipeRelay':
-            relay = pipe.PipeRelay(['deliver', '-f', '{sender}', '{recipient}'], timeout=9.0)
+            # a program run once for the whole message is not given a single recipient on its command line
+            relay = pipe.PipeRelay(['deliver', '-f', '{sender}'] + ([] if per_rcpt is False else ['{recipient}']), timeout=9.0)
         elif cls_name == 'MaildropRelay':
             relay = pipe.MaildropRelay(timeout=9.0)
         else:
@@ -240,10 +241,13 @@ def judge_pipe(case):
     for k, (args, stdin) in enumerate(sp.calls):
         st = status if (fail_index is None or k == fail_index) else 0
         if st == 0:
-            if relay.per_recipient:
-                accepted.add(env.recipients[k])
+            # who an invocation delivers to is what its command line says: the recipients it names, or (none named) the whole
+            # envelope -- not what the relay object believes about itself
+            named = [r for r in env.recipients if any(r in (a if isinstance(a, str) else a.decode('latin-1')) for a in args)]
+            if named:
+                accepted.update(named)
             else:
-                accepted.update(env.recipients)      # one invocation is responsible for the whole envelope
+                accepted.update(env.recipients)
     desc = '%s per_recipient=%r exit=%d stdout=%r stderr=%r n=%d failing_call=%r -> %s %r (calls %d)' % (
         cls_name, relay.per_recipient, status, PIPE_OUT[oi][0], PIPE_OUT[oi][1], n, fail_index, whole, per, len(sp.calls))
     if whole == 'blocked':
